@@ -40,6 +40,10 @@ def ft(x, y, *, t, c=0.5):
     return c * (x + y) + t + 0.75
 
 
+def fu(x, y, *, t, c=0.5):
+    return c * (x - 2 * y) - 3 * t + 1.25
+
+
 OPS = [operator.add, operator.sub, operator.mul, operator.truediv, operator.pow]
 OPN = ["Add", "Sub", "Mul", "Div", "Pow"]
 
@@ -277,6 +281,16 @@ def run(rep: common.Report, tier: str, seed: int, replay=None) -> int:
         ("keyword arguments reach a time-dependent function two levels down",
          float(((Tb * 2) + Pa)(X, Y, t=T)) == ft(X, Y, t=T, c=0.25) * 2 + f2(X, Y, a=1.0) and ((Tb * 2) + Pa).time_dependent),
     ]
+    # feature pair: TWO time-dependent operands in one composite whose functions differ but whose keyword arguments are the same
+    # (and, one level up, the same operand twice): each operand must evaluate ITS function, repeatedly and at several times
+    Ua, Ub = _t.Parameter(ft, time_dependent=True, c=0.5), _t.Parameter(fu, time_dependent=True, c=0.5)
+    two_td = []
+    for t_ in (T, T + 0.37, T):
+        two_td.append(float((Ua + Ub)(X, Y, t=t_)) == ft(X, Y, t=t_, c=0.5) + fu(X, Y, t=t_, c=0.5))
+        two_td.append(float((Ub - Ua)(X, Y, t=t_)) == fu(X, Y, t=t_, c=0.5) - ft(X, Y, t=t_, c=0.5))
+        two_td.append(float(((Ua * Ub) + (Ub / 2))(X, Y, t=t_)) == ft(X, Y, t=t_, c=0.5) * fu(X, Y, t=t_, c=0.5) + fu(X, Y, t=t_, c=0.5) / 2)
+    kw_checks.append(("two time-dependent operands with equal keyword arguments but different functions each evaluate their own function",
+                      all(two_td) and (Ua + Ub).time_dependent and (Ua + Ub) != (Ub + Ub)))
     Ka, Kb, Kc = _t.Parameter(fk, p=1.0, q=2.0), _t.Parameter(fk, q=2.0, p=1.0), _t.Parameter(fk, p=2.0, q=1.0)
     kw_checks += [
         ("keyword arguments written in another order are the same parameter", Ka == Kb and (Ka * 2) == (Kb * 2)
